@@ -107,6 +107,10 @@ type Layout struct {
 	Index   string `json:"index"`   // inmem | tsi1
 	Snap    []bool `json:"snap"`    // snapshot the cache after batch i
 	Final   int    `json:"final"`   // 0 leave, 1 snapshot, 2 snapshot + full compaction
+	// Inflight k > 0: after batch k (1-based) a cache snapshot is BEGUN on every shard written so
+	// far and stays in flight while the later batches are written and while the queries run
+	// (reads then combine files, the snapshot being flushed and the live cache)
+	Inflight int `json:"inflight,omitempty"`
 }
 
 type CaseDesc struct {
@@ -213,7 +217,13 @@ func (m *metaStub) ShardGroupsByTimeRange(database, policy string, min, max time
 
 type tsdbStub struct{ coordinator.TSDBStore }
 
+type pendingSnap struct {
+	eng *tsm1.Engine
+	vs  *tsm1.VerifSnap
+}
+
 type env struct {
+	pending []pendingSnap // snapshots in flight for the layout being queried
 	stores map[string]*tsdb.Store
 	meta   *metaStub
 	exec   *query.Executor
@@ -398,6 +408,7 @@ func (e *env) build(d Data, l Layout) (string, []int) {
 		return shardID[key{g, int(p.HashID() % uint64(n))}] // as meta.ShardGroupInfo.ShardFor
 	}
 	touched := map[uint64]bool{}
+	inflight := map[uint64]bool{}
 	dense := map[uint64]int{}
 	var assign []int
 	for bi, batch := range d.Batches {
@@ -430,7 +441,21 @@ func (e *env) build(d Data, l Layout) (string, []int) {
 		}
 		if bi < len(l.Snap) && l.Snap[bi] {
 			for _, id := range order {
-				snapshot(engineOf(st, id))
+				if !inflight[id] {
+					snapshot(engineOf(st, id))
+				}
+			}
+		}
+		if l.Inflight == bi+1 {
+			for id := range touched {
+				eng := engineOf(st, id)
+				eng.Compactor.EnableSnapshots()
+				vs, err := eng.VerifSnapshotBegin()
+				if err != nil {
+					panic(fmt.Sprintf("VerifSnapshotBegin: %v", err))
+				}
+				inflight[id] = true
+				e.pending = append(e.pending, pendingSnap{eng, vs})
 			}
 		}
 	}
@@ -440,6 +465,9 @@ func (e *env) build(d Data, l Layout) (string, []int) {
 	}
 	sort.Slice(ids, func(i, j int) bool { return ids[i] < ids[j] })
 	for _, id := range ids {
+		if inflight[id] {
+			continue // a second snapshot would wait for the one in flight
+		}
 		switch l.Final {
 		case 1:
 			snapshot(engineOf(st, id))
@@ -453,6 +481,12 @@ func (e *env) build(d Data, l Layout) (string, []int) {
 }
 
 func (e *env) drop(db string, l Layout) {
+	for _, p := range e.pending {
+		if err := p.eng.VerifSnapshotCommit(p.vs); err != nil {
+			panic(fmt.Sprintf("VerifSnapshotCommit: %v", err))
+		}
+	}
+	e.pending = nil
 	delete(e.meta.groups, db)
 	e.stores[l.Index].DeleteDatabase(db)
 }
@@ -826,9 +860,9 @@ func main() {
 	for i := 0; i < nData; i++ {
 		rr := r.Split()
 		d := genData(rr)
-		nl := 5
+		nl := 6
 		if f.Tier == "thorough" {
-			nl = 7
+			nl = 8
 		}
 		layouts := genLayouts(rr, d, nl)
 		var stmts []Stmt
